@@ -225,5 +225,5 @@ def run_harnesses(pid, specs, tier, log):
                 r["witness"] = {"found": False, "note": f"playback failed: {e}"}
         return r
 
-    with ThreadPoolExecutor(max_workers=int(os.environ.get("VERIF_KANI_JOBS", "14"))) as ex:
+    with ThreadPoolExecutor(max_workers=int(os.environ.get("VERIF_KANI_JOBS", "16"))) as ex:
         return list(ex.map(job, specs))
